@@ -9,6 +9,12 @@ use serde_json::{json, Value};
 
 pub const VERIF_DIR: &str = "/verif";
 
+/// Where evidence and replays are written (and where known_findings.json is read from). `HLVERIF_DIR` redirects
+/// it for development copies of the harness and for the parallel mutation runs (`mutants/auto`).
+pub fn verif_dir() -> String {
+	std::env::var("HLVERIF_DIR").unwrap_or_else(|_| VERIF_DIR.to_string())
+}
+
 #[derive(Clone, Debug)]
 pub struct Viol {
 	pub prop: String,
@@ -54,7 +60,7 @@ pub struct Known {
 }
 
 pub fn load_known() -> Vec<Known> {
-	let p = format!("{}/known_findings.json", VERIF_DIR);
+	let p = format!("{}/known_findings.json", verif_dir());
 	let Ok(s) = std::fs::read_to_string(&p) else { return vec![] };
 	let Ok(v) = serde_json::from_str::<Value>(&s) else {
 		eprintln!("machinery: cannot parse {}", p);
@@ -145,8 +151,8 @@ impl Report {
 				None => unlisted.push(v.clone()),
 			}
 		}
-		let _ = std::fs::create_dir_all(format!("{}/evidence", VERIF_DIR));
-		let _ = std::fs::create_dir_all(format!("{}/replays", VERIF_DIR));
+		let _ = std::fs::create_dir_all(format!("{}/evidence", verif_dir()));
+		let _ = std::fs::create_dir_all(format!("{}/replays", verif_dir()));
 		let mut cov: serde_json::Map<String, Value> = self.coverage.clone().into_iter().collect();
 		if self.samples.is_empty() {
 			self.samples.push(json!("(no sample recorded)"));
@@ -168,7 +174,7 @@ impl Report {
 			"wall_s": wall,
 			"violations": unlisted.len(),
 		});
-		let path = format!("{}/evidence/{}.json", VERIF_DIR, self.prop);
+		let path = format!("{}/evidence/{}.json", verif_dir(), self.prop);
 		if let Err(e) = std::fs::write(&path, serde_json::to_string_pretty(&ev).unwrap()) {
 			eprintln!("machinery: cannot write {}: {}", path, e);
 			std::process::exit(2);
@@ -186,7 +192,7 @@ impl Report {
 		for v in &unlisted {
 			let mut h = DefaultHasher::new();
 			v.key.hash(&mut h);
-			let rp = format!("{}/replays/{}-{:016x}.json", VERIF_DIR, v.prop, h.finish());
+			let rp = format!("{}/replays/{}-{:016x}.json", verif_dir(), v.prop, h.finish());
 			let body = json!({"property": v.prop, "key": v.key, "detail": v.detail, "replay": v.replay});
 			let _ = std::fs::write(&rp, serde_json::to_string_pretty(&body).unwrap());
 			println!("VIOLATION property={} replay={}", v.prop, rp);
